@@ -11,7 +11,8 @@ os.environ.setdefault('PYTHONHASHSEED', '0')
 os.environ.setdefault('OMP_NUM_THREADS', '1')
 os.environ.setdefault('OPENBLAS_NUM_THREADS', '1')
 os.environ.setdefault('MKL_NUM_THREADS', '1')
-sys.path.insert(0, '/repo')
+REPO = os.environ.get('VERIF_REPO', '/repo')      # registered commands always use /repo; tools/ may point to a scratch worktree
+sys.path.insert(0, REPO)
 warnings.simplefilter('ignore')
 
 from . import common, tlc  # noqa: E402
@@ -28,8 +29,8 @@ def main():
     pid = a.pid.upper()
     try:
         import teneva
-        if not os.path.abspath(teneva.__file__).startswith('/repo/'):
-            raise common.Machinery('teneva imported from %s, not from /repo' % teneva.__file__)
+        if not os.path.abspath(teneva.__file__).startswith(os.path.abspath(REPO) + '/'):
+            raise common.Machinery('teneva imported from %s, not from %s' % (teneva.__file__, REPO))
         mod = importlib.import_module('harness.' + pid.lower())
         ctx = common.Ctx(pid, a.tier, seed)
         if a.replay:
